@@ -4,6 +4,7 @@ import ast
 from ..index import AnalysisError, ClassInfo, norm, walk_no_nested
 from ..astutil import dotted, handler_class_exprs
 from .. import cfg as cfgmod
+from .. import dtable
 from ..excflow import ExcFlow
 
 ES = "problog.engine_stack"
@@ -21,6 +22,7 @@ EXPLANATION = (
     "no stratified program does, is a semantic statement about the engine and is not decided."
     " Added after seed round 6: N4 also requires that the list handed to notify_cycle is the complete, never re-bound result of engine.find_cycle."
     " Added after seed round 8: N10 EvalNot.complete hands its parent not(or(all proofs))."
+    " Added after seed round 9: N11 every path of StackBasedEngine.eval_neg evaluates the negation through an EvalNot frame."
 )
 TECHNIQUE = "static analysis: CFG must-pass-through rules over the cycle-detection call chain"
 LEVEL_TEXT = EXPLANATION
@@ -341,6 +343,30 @@ def rule_n10(repo, col):
     col.floor("N10.negations", n, 1)
 
 
+def rule_n11(repo, col):
+    """StackBasedEngine.eval_neg evaluates EVERY negation node through an EvalNot frame: that frame is what checkCycle looks for and what raises NegativeCycle in createCycle,
+    so no path may evaluate the negated goal (or the goal under a double negation) any other way"""
+    f = repo.func("problog.engine_stack", "StackBasedEngine.eval_neg")
+    m = f.module
+    paths = dtable.extract(f.node, opaque_loops=True)
+    bad = []
+    n = 0
+    for p_ in paths:
+        if p_.end != "return" or p_.value is None:
+            bad.append("a path returns nothing")
+            continue
+        n += 1
+        e = ast.parse(p_.value, mode="eval").body
+        ok = isinstance(e, ast.Call) and norm(e.func) == "self.eval_default" and e.args and norm(e.args[0]) == "EvalNot"
+        if not ok:
+            bad.append("returns %s%s" % (p_.value[:60], " when %s" % ", ".join("%s is %s" % (s_[:50], t_) for s_, t_, _ in p_.conds) if p_.conds else ""))
+    if n == 0:
+        raise AnalysisError("eval_neg: no returning path")
+    col.decide("N11", m, f.node, not bad, "every negation node is evaluated through an EvalNot frame",
+               "StackBasedEngine.eval_neg %s: without the EvalNot frame a loop through the negation looks like a positive cycle - p :- a. p :- \\+ \\+ p. is answered 0.5 instead of being "
+               "rejected with NegativeCycle" % "; ".join(bad[:2]), construct="eval_neg: negation evaluated without an EvalNot frame", function="StackBasedEngine.eval_neg")
+
+
 def run(repo, col):
     col.rule("N1", "EvalNot.createCycle always raises NegativeCycle")
     col.rule("N2", "checkCycle raises on an EvalNot between child and parent")
@@ -359,3 +385,5 @@ def run(repo, col):
     rule_n9(repo, col)
     col.rule("N10", "negation = not(or(all proofs))")
     rule_n10(repo, col)
+    col.rule("N11", "negation nodes always get an EvalNot frame")
+    rule_n11(repo, col)
